@@ -254,7 +254,15 @@ func (c01) Generate(r *sim.Rand, tier string) *sim.Scenario {
 		g.o.MaxElems, g.o.MaxDim = 144, 6
 		maxOps, maxDepth = 50, 60
 	}
+	wide := false
 	if r.Bool(0.003) {
+		wide = true
+		mode = 3
+		linear = false
+		nclients = 1
+		maxOps = 6
+		g.o = genOpts{MaxElems: 6, MaxRank: 2, MaxDim: 3, Linear: true, PSynth: 0.1, PTracked: 1}
+	} else if r.Bool(0.003) {
 		// a deep graph: hundreds of levels of a linear diamond chain / ladder on
 		// small tensors (bookkeeping that degrades with depth; 2^depth paths)
 		mode = []int{6, 7}[r.Intn(2)]
@@ -341,11 +349,35 @@ func (c01) Generate(r *sim.Rand, tier string) *sim.Scenario {
 			g.binary(c, a, b, linear)
 		case 3: // wide fan-out, then combine
 			w := r.Range(2, 8)
+			src := start
+			if wide {
+				// one intermediate with hundreds of consumers, combined by a balanced
+				// tree: hundreds of contexts are ready at the same time
+				w = r.Range(40, 400)
+				if h, ok := g.unary(c, start, true); ok {
+					src = h
+				}
+			}
 			var ys []avail
 			for j := 0; j < w; j++ {
-				if y, ok := g.unary(c, start, false); ok {
+				if y, ok := g.unary(c, src, wide); ok {
 					ys = append(ys, y)
 				}
+			}
+			for wide && len(ys) > 1 {
+				var next []avail
+				for i := 0; i+1 < len(ys); i += 2 {
+					if y, ok := g.binary(c, ys[i], ys[i+1], true); ok {
+						next = append(next, y)
+					}
+				}
+				if len(ys)%2 == 1 {
+					next = append(next, ys[len(ys)-1])
+				}
+				if len(next) >= len(ys) || len(next) == 0 {
+					break
+				}
+				ys = next
 			}
 			for len(ys) > 1 {
 				y, ok := g.binary(c, ys[0], ys[1], false)
